@@ -339,5 +339,26 @@ impl EventGen for ReuseElement {
 //@ - r is Ok && old(context).scope_stack.len() > 0 ==> final(context).scope_stack@ == old(context).scope_stack@    @@C15.reuse.bindings_restored
 //@end
 }
+// ------------------------------------------------------------------------------ defaults and control elements
+/// elements which are instructions, not drawn: their attributes are variable assignments, loop parameters, settings
+pub open spec fn control_name(n: Seq<char>) -> bool {
+    n == "var"@ || n == "config"@ || n == "defaults"@ || n == "specs"@ || n == "loop"@ || n == "for"@ || n == "if"@ || n == "reuse"@
+}
+//@rewrite strlit
+//@item src/transform.rs :: impl EventGen for Tag :: fn generate_events
+//@ fragment-name leaf_defaults
+//@ fragment-inner
+//@ fragment-from <<<            Tag::Leaf(el, tail) => {\n                let mut el = el.clone();>>>
+//@ fragment-to <<<                let (ev, bb) = el.generate_events(context)?;\n                (events, bbox) = (ev, bb);\n                if let (Some(tail), false) = (tail, events.is_empty()) {\n                    events.push(OutputEvent::Text(tail.to_owned()));\n                }\n            }\n            Tag::Comment>>>
+//@ fragment-head <<<fn leaf_defaults(mut el: SvgElement, context: &mut TransformerContext) -> SvgElement {>>>
+//@ fragment-tail <<<    el\n}>>>
+//@ strlit "var" "config" "defaults" "specs" "loop" "for" "if" "reuse"
+//@ replace[R-matches] <<<!matches!(\n                    el.name.as_str(),\n                    "var" | "config" | "defaults" | "specs" | "loop" | "for" | "if" | "reuse"\n                )>>> => <<<!(el.name.as_str() == "var" || el.name.as_str() == "config" || el.name.as_str() == "defaults" || el.name.as_str() == "specs" || el.name.as_str() == "loop" || el.name.as_str() == "for" || el.name.as_str() == "if" || el.name.as_str() == "reuse")>>>
+//@ ensures
+//@ - control_name(el.name@) ==> r == el     @@C15.defaults.not_on_control_elements
+//@ - !control_name(el.name@) ==> defaulted(r)     @@C18.leaf.defaults_applied
+//@ - scope_untouched(*old(context), *final(context)) && final(context).vars_set == old(context).vars_set     @@C15.defaults.assign_nothing
+//@end
+
 } // verus!
 fn main() {}
